@@ -6,10 +6,18 @@ from harness.symtree import (e1_params, e1_get, e1_wf_expr, wf, build_e1, wellfo
 FUNCS = ["transform.binarize", "transform._binarize_tree", "transform.collapse_unary_chains",
          "transform.uncollapse_unary_chains", "trees.parse_label", "trees.format_label"]
 ASSUMPTIONS = ["head assignment = one symbolic head index per constituent", "labels VROOT, NP-1 (co-indexed), X, Y: "
-               "without '+' and not starting with '@'", "all shapes E1(m, n) inside the bound (arity up to n, discontinuous nodes, "
+               "without '+' and not starting with '@'; in the binarization conditions a symbolic selector rotates the constituents "
+               "through labels with function, gap index and co-indices of one, two and three digits", "all shapes E1(m, n) inside the bound (arity up to n, discontinuous nodes, "
                "unary chains of length up to m at the root, in the middle and above tokens)"]
 OUTSIDE = ["arity above 5, chains longer than 4"]
 LABELS = ["VROOT", "NP-1", "X", "Y", "Z"]
+# decorated labels for the binarization conditions: the co-index is the trailing -<digits> (one or more digits)
+DLABELS = ["NP-1", "NP-12", "S-SBJ-10", "NP=2", "NP-SBJ", "NP-SBJ=3-14", "X", "VP-HD-207"]
+
+
+def _no_coindex(label):
+    import re
+    return re.sub(r"-[0-9]+$", "", label)
 
 
 def _mod(t):
@@ -46,9 +54,12 @@ def heads_ok(m, n, ip, lp, hs):
     return True
 
 
-def binarize(m, n, bare, marked, **kw):
+def binarize(m, n, bare, marked, lab=0, **kw):
     ip, lp = e1_get(kw, m, n)
-    nodes, leaves = build_e1(m, n, ip, lp, labels=LABELS[:m])
+    labels = [DLABELS[(lab + i) % len(DLABELS)] for i in range(m)]
+    if lab >= len(DLABELS):     # the virtual root keeps its usual label in half of the cases
+        labels[0] = "VROOT"
+    nodes, leaves = build_e1(m, n, ip, lp, labels=labels)
     maxar = max(len(x.children) for x in nodes)
     if marked:
         for i, nd in enumerate(nodes):
@@ -85,7 +96,7 @@ def binarize(m, n, bare, marked, **kw):
             p = x.parent
             while id(p) not in origlabels:
                 p = p.parent
-            want = "@" if bare else "@" + {"NP-1": "NP"}.get(origlabels[id(p)], origlabels[id(p)])
+            want = "@" if bare else "@" + _no_coindex(origlabels[id(p)])
             if x.data['label'] != want:
                 return "binarization node labelled %r, expected %r" % (x.data['label'], want)
     if _unbin(_mod(out)) != [orig]:
@@ -140,7 +151,7 @@ def conds(tier):
                                                         ", ".join("lp%d" % j for j in range(1, n + 1)),
                                                         ", ".join("h%d" % i for i in range(m)))
         sh = ["bare"] + (["lp1"] if m ** n >= 64 else []) + (["lp2"] if m ** n >= 200 else [])
-        cs.append(Cond("binarize-m%d-n%d" % (m, n), "harness.c14:binarize", e1_params(m, n) + hs + [P("bare", "bool")],
+        cs.append(Cond("binarize-m%d-n%d" % (m, n), "harness.c14:binarize", e1_params(m, n) + hs + [P("bare", "bool"), P("lab", "int", 0, 2 * len(DLABELS))],
                        fixed={"m": m, "n": n, "marked": True}, pre=[e1_wf_expr(m, n), hpre], shard=sh,
                        timeout=600 if q else 3000, functions=FUNCS[:2] + FUNCS[4:]))
     for (m, n) in ([(1, 2), (1, 3), (2, 4)] if q else [(1, 2), (1, 3), (2, 4), (3, 4)]):
